@@ -825,3 +825,142 @@ func GenDeleteCase(t *rapid.T) *DeleteCase {
 	c.Desc = fmt.Sprintf("%s %v=%d; reserved numbers %v (covers: %v), reserved names %v (all: %v)", c.Kind, v.names, v.num, ranges, numCovered, resNames, allNames)
 	return c
 }
+
+// GenReservedNamesCase: a message or enum that reserves names (with or without reserved numbers next to them);
+// the newer version drops, adds, reorders or re-spells names. Breaking iff an old name is no longer reserved.
+func GenReservedNamesCase(t *rapid.T, wantBreaking bool) *ValueCase {
+	g := &valGen{t: t}
+	isEnum := g.coin("enum")
+	c := &ValueCase{Kind: "msg-reserved-names", Path: "vals/v1/vals.proto", Rule: "RESERVED_MESSAGE_NO_DELETE"}
+	if isEnum {
+		c.Kind, c.Rule = "enum-reserved-names", "RESERVED_ENUM_NO_DELETE"
+	}
+	c.Syntax = []string{"proto2", "proto3", "editions"}[g.pick("syntax", 3)]
+	pool := []string{"old_name", "legacy", "legacy_", "Legacy", "removed_field", "tmp", "a", "removed_field_2"}
+	if isEnum {
+		pool = []string{"TARGET_OLD", "TARGET_LEGACY", "TARGET_LEGACY_", "target_legacy", "TARGET_REMOVED", "TARGET_TMP", "A", "TARGET_REMOVED_2"}
+	}
+	nOld := g.intn("names", 1, 4)
+	perm := rapid.Permutation(seq8(len(pool))).Draw(t, g.label("nameperm"))
+	old := []string{}
+	for _, i := range perm[:nOld] {
+		old = append(old, pool[i])
+	}
+	rest := []string{}
+	for _, i := range perm[nOld:] {
+		rest = append(rest, pool[i])
+	}
+	withRanges := g.coin("withranges")
+	cur := append([]string{}, old...)
+	steps := g.intn("steps", 1, 3)
+	dropAt := -1
+	if wantBreaking {
+		dropAt = g.pick("dropat", steps)
+	}
+	for k := 0; k < steps; k++ {
+		switch {
+		case k == dropAt || (wantBreaking && g.intn("alsodrop", 0, 3) == 0):
+			if len(cur) == 0 {
+				continue
+			}
+			i := g.pick("drop", len(cur))
+			if g.coin("respell") && len(rest) > 0 {
+				c.Steps = append(c.Steps, fmt.Sprintf("replace %s by %s", cur[i], rest[0]))
+				cur[i], rest = rest[0], rest[1:]
+			} else {
+				c.Steps = append(c.Steps, "drop "+cur[i])
+				cur = append(cur[:i], cur[i+1:]...)
+			}
+		case len(rest) > 0 && g.coin("add"):
+			c.Steps = append(c.Steps, "add "+rest[0])
+			cur, rest = append(cur, rest[0]), rest[1:]
+		default:
+			c.Steps = append(c.Steps, "reorder")
+			for i := len(cur) - 1; i > 0; i-- {
+				j := g.pick("shuf", i+1)
+				cur[i], cur[j] = cur[j], cur[i]
+			}
+		}
+	}
+	have := map[string]bool{}
+	for _, n := range cur {
+		have[n] = true
+	}
+	var missing []string
+	for _, n := range old {
+		if !have[n] {
+			missing = append(missing, n)
+		}
+	}
+	c.Breaking = len(missing) > 0
+	nested := g.coin("nested")
+	render := func(names []string) (string, Pos, Pos) {
+		var b []string
+		switch c.Syntax {
+		case "proto2":
+			b = append(b, `syntax = "proto2";`)
+		case "proto3":
+			b = append(b, `syntax = "proto3";`)
+		default:
+			b = append(b, `edition = "2023";`)
+		}
+		b = append(b, "", "package vals.v1;", "")
+		ind := ""
+		if nested {
+			b = append(b, "message Outer {")
+			ind = "  "
+		}
+		label := ""
+		if c.Syntax == "proto2" {
+			label = "optional "
+		}
+		start := Pos{Line: len(b) + 1, Col: len(ind) + 1}
+		if isEnum {
+			b = append(b, ind+"enum Target {", ind+"  TARGET_UNSPECIFIED = 0;")
+		} else {
+			b = append(b, ind+"message Target {", ind+"  "+label+"int32 kept = 4500;")
+		}
+		if withRanges {
+			b = append(b, ind+"  reserved 5 to 7, 9;")
+		}
+		// one statement or one per name
+		quote := func(n string) string {
+			if c.Syntax == "editions" {
+				return n
+			}
+			return `"` + n + `"`
+		}
+		if len(names) > 0 {
+			if g.coin("onestatement") {
+				var q []string
+				for _, n := range names {
+					q = append(q, quote(n))
+				}
+				b = append(b, ind+"  reserved "+strings.Join(q, ", ")+";")
+			} else {
+				for _, n := range names {
+					b = append(b, ind+"  reserved "+quote(n)+";")
+				}
+			}
+		}
+		b = append(b, ind+"}")
+		end := Pos{Line: len(b), Col: len(ind) + 2}
+		if nested {
+			b = append(b, "}")
+		}
+		return strings.Join(b, "\n") + "\n", start, end
+	}
+	c.Old, _, _ = render(old)
+	c.New, c.Start, c.End = render(cur)
+	c.Mention = []string{"Target"}
+	c.Desc = fmt.Sprintf("%s %v -> %v (%s; reserved numbers alongside: %v); missing %v", c.Kind, old, cur, strings.Join(c.Steps, "; "), withRanges, missing)
+	return c
+}
+
+func seq8(n int) []int {
+	out := make([]int, n)
+	for i := range out {
+		out[i] = i
+	}
+	return out
+}
